@@ -103,7 +103,8 @@ def run(args):
         probes.update(ev.get("faults_fired", {}))
         probes.update(ev.get("environment_kinds_applied", {}))
         for k, v in (ev.get("shim_calls_fired", {}) or {}).items():
-            if k != "clock":
+            # clock, getpid and sched_getaffinity are interposed to *prove* the generator never asks (expected 0)
+            if k not in ("clock", "getpid", "sched_getaffinity"):
                 probes["shim_" + k] = v
         for k, v in probes.items():
             if isinstance(v, int) and v == 0 and k not in ("skipped_ops",):
